@@ -128,6 +128,7 @@ DESCR = {
     "F64": "floats as exact rationals with IEEE-754 round-to-nearest-even (`roundF64`, `roundF32`)",
     "ExprLex": "`expressions/scanner.rl`: the expression lexer (longest match, keywords, literals, ranges)",
     "ExprParse": "`expressions/expressions.y`: expressions, filters, `%assign`/`%loop`/`%cycle`/`%when` statements (recursive descent with fuel)",
+    "ExprShow": "the printer of expression trees: canonical tokens `Expr.toks` with parentheses where a lower grammar level stands in a higher position, canonical lexemes, exact decimal expansion of floats (`showFloat`), `Expr.show`, `Expr.printable` (C08 round trip)",
     "Lookup": "`values`: `IndexValue`, `PropertyValue`, `Test`, int conversion for indices, MapSlice search",
     "Eval": "`expressions` evaluator over `Prims` (comparison, contains, filters)",
     "Compare": "`values/compare.go`, `values/predicates.go`: `Equal`, `Less`, `joinKind`, `contains`, operators",
